@@ -265,6 +265,32 @@ def generated_case(ctx, rng, idx):
     if not ctx.close(np.asarray(y2), ref, rtol=1e-6, scale=sc):
         ctx.violation('solution_of_the_ivp', 'value_mismatch_with_sens',
                       {'chi': y2, 'reference': ref}, feats)
+    # ---- later calls on the same object: the same arguments give the same
+    # outputs and derivatives again, also after a call with other arguments
+    # (the first call was compared with the reference above)
+    try:
+        ya, sa = obj.simulate(x[free], times)
+        obj.simulate(x[free] * 1.07, times[:max(1, len(times) // 2)])
+        yb, sb = obj.simulate(x[free], times)
+    except Exception as e:      # noqa
+        ctx.violation_exc('simulate_raises', e,
+                          {'model': am.describe(), 'call': 'repeated'}, feats)
+        return
+    ctx.count('repeated_sensitivity_calls')
+    for tag, yy, s_ in (('second call', ya, sa),
+                        ('after a call with other arguments', yb, sb)):
+        if not (ctx.close(np.asarray(yy), np.asarray(y2), rtol=1e-9,
+                          scale=sc) and
+                ctx.close(np.asarray(s_), s, rtol=1e-7, scale=ss)):
+            k = int(np.argmax(np.max(np.abs(np.asarray(s_) - s),
+                                     axis=(0, 1))))
+            ctx.violation('derivatives_in_parameter_order',
+                          'sensitivities_depend_on_earlier_calls',
+                          {'which': tag, 'worst_parameter': free_names[k],
+                           'first call': s[:, :, k],
+                           'this call': np.asarray(s_)[:, :, k],
+                           'model': am.describe()}, feats)
+            break
 
 
 # ------------------------------------------------------------ library
@@ -401,6 +427,20 @@ def library_case(ctx, rng, idx):
         ctx.violation('derivatives_in_parameter_order',
                       'library_sensitivity_mismatch:' + which,
                       {'chi': s, 'reference': sref}, feats)
+        return
+    # the same call again, and once more after a call with other arguments
+    ya, sa = m.simulate(x, times)
+    m.simulate(x * 1.07, times[:max(1, len(times) // 2)])
+    yb, sb = m.simulate(x, times)
+    ctx.count('repeated_sensitivity_calls')
+    for tag, s_ in (('second call', sa),
+                    ('after a call with other arguments', sb)):
+        if not ctx.close(np.asarray(s_), np.asarray(s), rtol=1e-7, scale=ss):
+            ctx.violation('derivatives_in_parameter_order',
+                          'sensitivities_depend_on_earlier_calls',
+                          {'which': tag, 'first call': s, 'this call': s_},
+                          feats)
+            break
 
 
 FAMILIES = [
